@@ -73,7 +73,7 @@ package netpoll
 //@ worldrely forall k *connection {k.setup} :: k.setup ==> k.inputBuffer == old(k.inputBuffer) && k.outputBuffer == old(k.outputBuffer) && k.readTrigger == old(k.readTrigger) && k.writeTrigger == old(k.writeTrigger)
 //@   && k.closeCallbacks.v == old(k.closeCallbacks.v) && k.state == old(k.state) && k.outputBarrier == old(k.outputBarrier) && k.fd == old(k.fd)
 //@ func (*connection).init
-//@   property C09 C15
+//@   property C05 C09 C15
 //@   requires c.setup && conn != nil && (typeis(conn, *netFD) ==> conn#val != 0) && !c.heldC && !c.heldP && !c.sealed_heldP && c.closeCallbacks.v == nil && cblist()
 //@   requires mbase(pollmanager) && (pollmanager.status == 2 ==> mgood(pollmanager))
 //@   assume pollmanager.status != 1
